@@ -21,7 +21,7 @@ package varmq
 
 // After notifyToPullNextJobs a wake-up token is pending on the signal channel (if there is one and it is buffered).
 //@ func worker.notifyToPullNextJobs
-//@   props C03 C09 C14
+//@   props C03 C09 C14 CORE
 //@   requires ChanOK(w.eventLoopSignal)
 //@   modifies $chan(w.eventLoopSignal)
 //@   ensures [pending] w.eventLoopSignal != nil && $cap(w.eventLoopSignal) >= 1 ==> $len(w.eventLoopSignal) >= 1
@@ -87,7 +87,7 @@ package varmq
 
 // releaseWaiters: when nothing is in flight any more the barrier waiters are woken -- if paused, or if running with nothing pending.
 //@ func worker.releaseWaiters
-//@   props C06
+//@   props C06 CORE
 //@   requires w.waiters != nil && RI_Manager($addr(w.queues.Manager))
 //@   requires forall i int :: 0 <= i && i < len(w.queues.Manager.items) ==> $lenOf(w.queues.Manager.items[i]) >= 0
 //@   requires forall k int {@sumLen(w.queues.Manager.items, k)} :: 0 <= k && k <= len(w.queues.Manager.items) ==> @sumLen(w.queues.Manager.items, k) <= MaxInt
@@ -98,7 +98,7 @@ package varmq
 
 // closeChannels: each non-nil channel is closed exactly once and the field set to nil; the dispatcher on the old signal channel ends.
 //@ func worker.closeChannels
-//@   props C14 C18 C10
+//@   props C14 C18 C10 CORE
 //@   requires ChanOK(w.eventLoopSignal) && ChanOK(w.errorChan) && (w.eventLoopSignal == nil || w.eventLoopSignal != w.errorChan)
 //@   modifies w.eventLoopSignal, w.errorChan, $open(w.eventLoopSignal), $open(w.errorChan), w.$disp
 //@   ensures [nil]    w.eventLoopSignal == nil && w.errorChan == nil && w.$disp == 0
@@ -106,7 +106,7 @@ package varmq
 //@   ghost at return: w.$disp := 0
 
 //@ func worker.stopTickers
-//@   props C18
+//@   props C18 CORE
 //@   requires forall t ref {$tickerStopped[t]} :: $tickerStopped[t] >= 0
 //@   modifies w.tickers, $tickerStopped, $alloc
 //@   ensures [emptied] len(w.tickers) == 0
@@ -117,7 +117,7 @@ package varmq
 // ---------------------------------------------------------------- goroutine sites
 // One dispatcher is started on the current signal channel (which must exist).
 //@ func worker.goEventLoop
-//@   props C02 C14 C18
+//@   props C02 C14 C18 CORE
 //@   requires w.eventLoopSignal != nil
 //@   modifies $alloc, $spawned["varmq.worker.goEventLoop$1"], w.$disp
 //@   ensures [one] w.$disp == old(w.$disp) + 1 && $spawned["varmq.worker.goEventLoop$1"] == old($spawned["varmq.worker.goEventLoop$1"]) + 1
@@ -142,7 +142,7 @@ package varmq
 
 // initPoolNode takes a node from the cache, starts its goroutine and hands it to the caller (it is in no list).
 //@ func worker.initPoolNode
-//@   props C01 C18
+//@   props C01 C18 CORE
 //@   requires w.pool != nil
 //@   modifies $alloc, $spawned["pool.Node.Serve"], w.$nodes
 //@   ensures [node]  NodeFree(result)
@@ -153,7 +153,7 @@ package varmq
 // freePoolNode: the node (owned by the caller, in no list) is kept idle iff the backlog is at least the limit, or expiry is configured, or
 // the idle list is below its minimum; otherwise it is stopped and cached. It never retires the last idle node.
 //@ func worker.freePoolNode
-//@   props C18 C01 C03
+//@   props C18 C01 C03 CORE
 //@   requires PoolOK(w) && w.pool.List.len < MaxUint32 && QM(w) && NodeFree(node) && w.Configs.minIdleWorkerRatio <= 100 && w.Configs.idleWorkerExpiryDuration >= 0
 //@   requires forall i int :: 0 <= i && i < len(w.queues.Manager.items) ==> $lenOf(w.queues.Manager.items[i]) >= 0
 //@   requires forall k int {@sumLen(w.queues.Manager.items, k)} :: 0 <= k && k <= len(w.queues.Manager.items) ==> @sumLen(w.queues.Manager.items, k) <= MaxInt
@@ -168,7 +168,7 @@ package varmq
 
 // sendToNextChannel: the job goes to exactly one pool node: the idle node popped from the list, or a new one only if the list was empty.
 //@ func worker.sendToNextChannel
-//@   props C01 C03 C18
+//@   props C01 C03 C18 CORE
 //@   requires PoolOK(w)
 //@   modifies linkedlist.Node.next, linkedlist.Node.prev, w.pool.List.len, w.pool.List.$in, $alloc, $spawned["pool.Node.Serve"], w.$nodes, w.$dispatched, key CH:sent<, key CH:rcvd<, key CHV:<
 //@   ensures [one]   w.$dispatched == old(w.$dispatched) + 1
@@ -178,7 +178,7 @@ package varmq
 
 // stopAndRemoveAllWorkers: the idle list is emptied; every node that was idle gets the stop payload and goes back to the cache.
 //@ func worker.stopAndRemoveAllWorkers
-//@   props C18 C14
+//@   props C18 C14 CORE
 //@   requires PoolOK(w)
 //@   modifies linkedlist.Node.next, linkedlist.Node.prev, w.pool.List.len, w.pool.List.$at, w.pool.List.$pos, w.pool.List.$in, $alloc, key CH:sent<, key CH:rcvd<, key CHV:<, key G:$poolputs
 //@   ensures [empty] w.pool.List.len == 0 && PoolOK(w)
@@ -190,7 +190,7 @@ package varmq
 // otherwise the entry's job is either skipped because it is already closed (nothing dispatched) or marked processing, given the
 // acknowledgement id of this delivery and handed to exactly one pool node -- after all of that bookkeeping.
 //@ func worker.processNextJob
-//@   props C01 C02 C09 C10 C11 C12 C16 C06
+//@   props C01 C02 C09 C10 C11 C12 C16 C06 CORE
 //@   requires PoolOK(w) && QM(w) && w.curProcessing < MaxUint32 && w.waiters != nil
 //@   requires forall k int {@sumLen(w.queues.Manager.items, k)} :: 0 <= k && k <= len(w.queues.Manager.items) ==> @sumLen(w.queues.Manager.items, k) <= MaxInt
 //@   requires forall i int :: 0 <= i && i < len(w.queues.Manager.items) ==> $lenOf(w.queues.Manager.items[i]) >= 0 && w.queues.Manager.items[i] != nil
@@ -210,6 +210,13 @@ package varmq
 //@   ensures [wake-consumed@C06] w.$dispatched == old(w.$dispatched) && (exists q ref :: $deq(q) == old($deq(q)) + 1) && w.curProcessing == 0
 //@                         && (w.status == paused || (w.status == running && @sumLen(w.queues.Manager.items, len(w.queues.Manager.items)) == 0))
 //@                         ==> $broadcasts[w.waiters] == old($broadcasts[w.waiters]) + 1
+// the in-flight count handed to releaseWaiters is read AFTER the entry was taken off the queue (a snapshot from before the dequeue can
+// hide the completion of the last running job: both sides would then leave the wake-up to the other)
+//@   ghost entry: $pf := false
+//@   ghost after load curProcessing: $pf := true
+//@   ghost after call invoke.Dequeue: $pf := false
+//@   ghost after call invoke.DequeueWithAckId: $pf := false
+//@   assert [release-with-fresh-count@C06] before call varmq.worker.releaseWaiters: $pf
 //@   ghost before call varmq.worker.releaseWaiters: assume forall k int {@sumLen(w.queues.Manager.items, k)} :: 0 <= k && k <= len(w.queues.Manager.items) ==> @sumLen(w.queues.Manager.items, k) <= MaxInt
 //@   assert [not-closed]      before call invoke.changeStatus: $jstatus(j) != closed
 //@   assert [bookkeeping]     before call varmq.worker.sendToNextChannel: $jstatus(j) == processing && $jackid(j) == ackId && w.curProcessing == old(w.curProcessing) + 1
@@ -220,7 +227,7 @@ package varmq
 // waiters) -> the node is given back -> the in-flight count drops -> barrier waiters are released if appropriate -> Completed+1 -> the
 // dispatcher is signalled. The signal comes after the decrement (otherwise the dispatcher may see no free slot and sleep: lost wake-up).
 //@ func worker.initPoolNode$1
-//@   props C01 C03 C05 C06 C11 C16 C17 C18
+//@   props C01 C03 C05 C06 C11 C16 C17 C18 CORE
 //@   requires $deref(w) != nil && PoolOK($deref(w)) && QM($deref(w)) && $deref(w).pool.List.len < MaxUint32 && NodeFree($deref(node)) && $deref(w).metrics != nil && $deref(w).waiters != nil
 //@   requires $deref(w).workerFunc != nil && $deref(w).curProcessing >= 1 && ChanOK($deref(w).errorChan) && ChanOK($deref(w).eventLoopSignal)
 //@   requires $deref(w).Configs.minIdleWorkerRatio <= 100 && $deref(w).Configs.idleWorkerExpiryDuration >= 0 && $deref(w).concurrency * $deref(w).Configs.minIdleWorkerRatio <= MaxUint32
@@ -246,7 +253,7 @@ package varmq
 // pending. Every dispatch decision re-reads status, in-flight count, limit and backlog (nothing is cached across a dispatch), errors are
 // reported without blocking and do not end the loop; the goroutine returns only when its signal channel is closed.
 //@ func worker.goEventLoop$1
-//@   props C02 C03 C09 C11 C12 C06 C01
+//@   props C02 C03 C09 C11 C12 C06 C01 CORE
 //@   requires signal != nil && $deref(w) != nil && PoolOK($deref(w)) && QM($deref(w)) && ChanOK($deref(w).errorChan) && $deref(w).waiters != nil
 //@   requires forall i int :: 0 <= i && i < len($deref(w).queues.Manager.items) ==> $deref(w).queues.Manager.items[i] != nil
 //@   modifies $chan(signal), $open(signal), $chan($deref(w).errorChan), $deref(w).queues.Manager.roundRobinIndex, $lenOf, $deq, $deref(w).curProcessing, $jstatus, $jackid, $jqueue, $alloc,
@@ -289,7 +296,7 @@ package varmq
 // WaitUntilFinished returns only when the wait predicate is false. While it is parked other goroutines may complete jobs, dispatch jobs and
 // accept submissions (the `modifies` list is what they may change; `rely` is what they preserve); lifecycle calls are not interleaved (SEQ).
 //@ func worker.WaitUntilFinished
-//@   props C06 C09 C14
+//@   props C06 C09 C14 CORE
 //@   requires w != nil && w.waiters != nil && PoolOK(w) && QM(w) && (forall q ref {$lenOf(q)} :: $lenOf(q) >= 0)
 //@   modifies w.curProcessing, $lenOf, $alloc, linkedlist.Node.next, linkedlist.Node.prev, w.pool.List.len, w.pool.List.$at, w.pool.List.$pos, w.pool.List.$in, key CH:sent<, key CH:rcvd<, key CHV:<, w.$nodes, w.$dispatched, w.$freed
 //@   rely  PoolOK(w) && (forall q ref {$lenOf(q)} :: $lenOf(q) >= 0)
@@ -308,7 +315,7 @@ package varmq
 // start: from Running / Paused / Stopped it refuses and changes nothing; from Initiated it creates exactly one dispatcher, the reaper (iff
 // idle expiry), the context listener (iff a context), the first idle pool node, stores Running and raises the initial signal.
 //@ func worker.start
-//@   props C14 C02 C03 C18 C09
+//@   props C14 C02 C03 C18 C09 CORE
 //@   requires RI_worker(w) && w.Configs.idleWorkerExpiryDuration >= 0 && len(w.tickers) < MaxInt
 //@   modifies w.status, $alloc, $spawned, w.$disp, w.$reapers, w.$listeners, w.$nodes, w.tickers, w.tickers[**], key G:$tickersLive, $chan(w.eventLoopSignal),
 //@            linkedlist.Node.next, linkedlist.Node.prev, w.pool.List.len, w.pool.List.$at, w.pool.List.$pos, w.pool.List.$in
@@ -319,14 +326,14 @@ package varmq
 //@   ensures [ri]        RI_worker(w)
 
 //@ func worker.Pause
-//@   props C14 C09
+//@   props C14 C09 CORE
 //@   modifies w.status
 //@   ensures [running]   old(w.status) == running ==> result == nil && w.status == paused
 //@   ensures [parked]    (old(w.status) == paused || old(w.status) == stopped) ==> result == nil && w.status == old(w.status)
 //@   ensures [initiated] old(w.status) == initiated ==> result == ErrNotRunningWorker && w.status == initiated
 
 //@ func worker.PauseAndWait
-//@   props C14 C09 C06
+//@   props C14 C09 C06 CORE
 //@   requires w != nil && w.waiters != nil && PoolOK(w) && QM(w) && (forall q ref {$lenOf(q)} :: $lenOf(q) >= 0) && 0 <= w.status && w.status <= stopped
 //@   modifies w.status, w.curProcessing, $lenOf, $alloc, linkedlist.Node.next, linkedlist.Node.prev, w.pool.List.len, w.pool.List.$at, w.pool.List.$pos, w.pool.List.$in, key CH:sent<, key CH:rcvd<, key CHV:<, w.$nodes, w.$dispatched, w.$freed
 //@   ensures [SEQ] [running]   old(w.status) == running ==> result == nil && w.status == paused && w.curProcessing == 0
@@ -338,7 +345,7 @@ package varmq
 // Resume: Paused -> Running (and the dispatcher is signalled); Initiated -> start(); Running -> ErrRunningWorker; Stopped -> ErrNotRunningWorker.
 // It never creates a second dispatcher.
 //@ func worker.Resume
-//@   props C14 C09 C02 C03
+//@   props C14 C09 C02 C03 CORE
 //@   requires RI_worker(w) && w.Configs.idleWorkerExpiryDuration >= 0 && len(w.tickers) < MaxInt
 //@   modifies w.status, $alloc, $spawned, w.$disp, w.$reapers, w.$listeners, w.$nodes, w.tickers, w.tickers[**], key G:$tickersLive, $chan(w.eventLoopSignal),
 //@            linkedlist.Node.next, linkedlist.Node.prev, w.pool.List.len, w.pool.List.$at, w.pool.List.$pos, w.pool.List.$in
@@ -352,7 +359,7 @@ package varmq
 // channels are closed and nil, no dispatcher, no ticker and no idle pool node is left and the context (if any) is cancelled: every
 // goroutine the worker started has been told to exit.
 //@ func worker.Stop
-//@   props C14 C18 C09 C06 C14@B2
+//@   props C14 C18 C09 C06 C14@B2 CORE
 // B2-lite (C14): whatever lifecycle calls interleave with the waits inside Stop, a Stop that started from Running/Paused ends in Stopped
 //@   ensures [B2] [b2-stopped] (old(w.status) == running || old(w.status) == paused) ==> result == nil && w.status == stopped
 //@   requires RI_worker(w) && (forall q ref {$lenOf(q)} :: $lenOf(q) >= 0) && (forall t ref {$tickerStopped[t]} :: $tickerStopped[t] >= 0)
@@ -369,7 +376,7 @@ package varmq
 //@   ghost after call funcvalue: w.$listeners := 0
 
 //@ func worker.WaitAndStop
-//@   props C14 C06
+//@   props C14 C06 CORE
 //@   requires RI_worker(w) && (forall q ref {$lenOf(q)} :: $lenOf(q) >= 0) && (forall t ref {$tickerStopped[t]} :: $tickerStopped[t] >= 0)
 //@   modifies w.status, w.curProcessing, $lenOf, $alloc, linkedlist.Node.next, linkedlist.Node.prev, w.pool.List.len, w.pool.List.$at, w.pool.List.$pos, w.pool.List.$in,
 //@            key CH:sent<, key CH:rcvd<, key CHV:<, w.$nodes, w.$dispatched, w.$freed, w.tickers, $tickerStopped, w.eventLoopSignal, w.errorChan,
@@ -382,7 +389,7 @@ package varmq
 // Restart: from any state the worker ends up Running with fresh channels, exactly one dispatcher, a fresh context (if configured) whose
 // listener is the only one, and nothing left armed that could stop it behind the caller's back.
 //@ func worker.Restart
-//@   props C14 C18 C02 C09 C14@B2
+//@   props C14 C18 C02 C09 C14@B2 CORE
 //@   ensures [B2] [b2-running] result == nil ==> w.status == running
 //@   requires RI_worker(w) && (forall q ref {$lenOf(q)} :: $lenOf(q) >= 0) && w.Configs.idleWorkerExpiryDuration >= 0 && len(w.tickers) < MaxInt
 //@   modifies w.status, w.curProcessing, $lenOf, $alloc, linkedlist.Node.next, linkedlist.Node.prev, w.pool.List.len, w.pool.List.$at, w.pool.List.$pos, w.pool.List.$in,
@@ -405,7 +412,7 @@ package varmq
 // TunePool: only a running worker can be tuned; the limit becomes withSafeConcurrency(n); growing raises the signal; shrinking (without
 // idle expiry) retires at most old-new idle workers and never goes below the idle minimum that was available.
 //@ func worker.TunePool
-//@   props C14 C18 C02 C03
+//@   props C14 C18 C02 C03 CORE
 //@   requires RI_worker(w) && w.Configs.minIdleWorkerRatio <= 100 && w.concurrency * w.Configs.minIdleWorkerRatio <= MaxUint32
 //@   modifies w.concurrency, $chan(w.eventLoopSignal), $alloc, linkedlist.Node.next, linkedlist.Node.prev, w.pool.List.len, w.pool.List.$at, w.pool.List.$pos, w.pool.List.$in,
 //@            key CH:sent<, key CH:rcvd<, key CHV:<, key G:$poolputs
@@ -424,7 +431,7 @@ package varmq
 // A new worker is Initiated: both channels exist and are open (the signal channel is buffered, so a wake-up cannot be lost), no
 // goroutine has been started, the idle list is empty, the limit is the configured one (>= 1), and ctx/cancel exist iff a context was configured.
 //@ func newWorker
-//@   props C14 C02 C03 C18
+//@   props C14 C02 C03 C18 CORE
 //@   requires wf != nil
 //@   modifies $usercalls, $alloc
 //@   ensures [fresh] $fresh(result) && result.status == initiated && result.$disp == 0 && result.$listeners == 0 && result.$armed == 0 && result.$reapers == 0 && result.curProcessing == 0
@@ -435,7 +442,7 @@ package varmq
 //@   ghost at return: result.$reapers := 0
 
 //@ func newErrWorker
-//@   props C14 C02 C03 C18
+//@   props C14 C02 C03 C18 CORE
 //@   requires wf != nil
 //@   modifies $usercalls, $alloc
 //@   ensures [fresh] $fresh(result) && result.status == initiated && result.$disp == 0 && result.$listeners == 0 && result.$armed == 0 && result.$reapers == 0 && result.curProcessing == 0
@@ -446,7 +453,7 @@ package varmq
 //@   ghost at return: result.$reapers := 0
 
 //@ func newResultWorker
-//@   props C14 C02 C03 C18
+//@   props C14 C02 C03 C18 CORE
 //@   requires wf != nil
 //@   modifies $usercalls, $alloc
 //@   ensures [fresh] $fresh(result) && result.status == initiated && result.$disp == 0 && result.$listeners == 0 && result.$armed == 0 && result.$reapers == 0 && result.curProcessing == 0
